@@ -126,8 +126,6 @@ mod verif_c08d {
     h!(c08t_d_ord_n10, 130, ord_same::<16>(10));
     h!(c08t_d_ord_n11, 258, ord_same::<32>(11));
     h!(c08t_d_ord_n12, 514, ord_same::<64>(12));
-    h!(c08t_d_ord_n13, 1026, ord_same::<128>(13));
-    h!(c08t_d_ord_n14, 2050, ord_same::<256>(14));
     h!(c08q_d_orddiff_0_1, 9, ord_diff::<1, 1>(0, 1));
     h!(c08q_d_orddiff_5_2, 9, ord_diff::<1, 1>(5, 2));
     h!(c08q_d_orddiff_6_7, 9, ord_diff::<1, 2>(6, 7));
